@@ -20,6 +20,7 @@ TY = {"int": "Int", "uint": "UInt", "float": "Float", "angle": "Angle", "bit": "
       "stretch": "Stretch", "complex": "Complex"}
 WIDTHED = ("int", "uint", "float", "angle", "bit", "complex")
 NUMERIC_RANK = {"int": 1, "uint": 1, "float": 2, "complex": 3}
+TOWER = {"Int": 0, "UInt": 0, "Float": 1, "Complex": 2}
 SPECIAL = ("bit", "bool", "duration", "stretch", "angle")
 
 
@@ -179,6 +180,11 @@ class H(semh.Base):
                 for side in ("left", "right"):
                     o = b[side]
                     P(type_eq(o["ty"], ty), f"arithmetic expression typed {ty!r} has a {side} operand of type {o['ty']!r} without explicit cast")
+                    # the common type is an upper bound in int, uint < float < complex: an operand that was cast for the operation
+                    # is not cast down the tower
+                    src = o["expression"][0]["operand"]["ty"] if o["expression"].v == "Cast" else o["ty"]
+                    if TOWER.get(src.v, -1) > TOWER.get(ty.v, 9):
+                        raise Violation(f"`{self.label()}`: arithmetic expression typed {ty.v} casts its {src.v} operand down the numeric tower")
             self.check_typing(ex, R, b["left"], what); self.check_typing(ex, R, b["right"], what)
         elif e.v == "UnaryExpr":
             self.check_typing(ex, R, e[0]["operand"], what)
